@@ -29,29 +29,32 @@ Proof. intros s a s' E. discriminate. Qed.
 
 (* ---------- one baby ---------- *)
 Record rs_ok (h0 : list organism) (key0 : Z) (rs : rstate) : Prop := {
-  ro_ext : hext o_species h0 (r_heap rs);
+  ro_ext : hext pe h0 (r_heap rs);
   ro_key : key0 <= r_key rs;
   ro_bound : hbound (r_heap rs) (r_key rs);
   ro_babies : r_babies rs = zrange key0 (r_key rs);
-  ro_dom : forall k, key0 <= k < r_key rs -> exists a, sp_of (r_heap rs) k = Some a }.
+  ro_dom : forall k, key0 <= k < r_key rs -> exists a, sp_of (r_heap rs) k = Some a;
+  ro_fresh : forall k, key0 <= k < r_key rs -> hview o_elim (r_heap rs) k = Some false }.
 
 Lemma finish_ok h0 key0 rs h' b cd :
-  rs_ok h0 key0 rs -> hframe o_species (r_heap rs) h' -> o_key b = r_key rs ->
+  rs_ok h0 key0 rs -> hframe pe (r_heap rs) h' -> o_key b = r_key rs -> o_elim b = false ->
   rs_ok h0 key0 {| r_heap := hset h' b; r_key := r_key rs + 1; r_babies := r_babies rs ++ [o_key b];
                    r_clone_done := cd |}.
 Proof.
-  intros [R1 R2 R3 R4 R5] F Eb.
+  intros [R1 R2 R3 R4 R5 R6] F Eb Ee.
   assert (B' : hbound h' (r_key rs)) by (eapply hbound_frame; eauto).
-  assert (Fresh : sp_of h' (o_key b) = None).
-  { unfold sp_of, hview. destruct (hget h' (o_key b)) as [x| | | | |] eqn:E; try reflexivity.
+  assert (Fr : forall A (f : organism -> A), hview f h' (o_key b) = None).
+  { intros A f. unfold hview. destruct (hget h' (o_key b)) as [x| | | | |] eqn:E; try reflexivity.
     apply B' in E. lia. }
   constructor; cbn.
-  - eapply hext_trans; [exact R1|]. eapply hext_trans; [apply hframe_ext, F|]. now apply hext_hset_fresh.
+  - eapply hext_trans; [exact R1|]. eapply hext_trans; [apply hframe_ext, F|]. apply hext_hset_fresh, Fr.
   - lia.
   - apply hbound_hset; [eapply hbound_mono; eauto; lia|lia].
   - rewrite R4, Eb. symmetry. now apply zrange_snoc.
   - intros k Hk. unfold sp_of. rewrite hview_hset. destruct (Z.eqb_spec k (o_key b)); [eauto|].
-    rewrite F. apply R5. lia.
+    rewrite (hframe_pe_species _ _ F). apply R5. lia.
+  - intros k Hk. rewrite hview_hset. destruct (Z.eqb_spec k (o_key b)); [now rewrite Ee|].
+    rewrite (hframe_pe_elim _ _ F). apply R6. lia.
 Qed.
 
 Lemma one_baby_ok o gen all sorted s count h0 key0 rs :
@@ -61,14 +64,15 @@ Proof.
   intros R. unfold one_baby. cbv beta zeta.
   apply post_bind_lift. intros champ Hc.
   apply first_org_ok in Hc. destruct Hc as (kc & rc & _ & Hkc).
-  assert (Fch : forall n, hframe o_species (r_heap rs) (hset (r_heap rs) (o_with_super champ n))).
-  { intros n. apply (hframe_hset_get o_species _ champ); [|reflexivity]. cbn. now rewrite (hget_key _ _ _ Hkc). }
-  pose proof (hframe_refl o_species (r_heap rs)) as Frefl.
+  assert (Fch : forall n, hframe pe (r_heap rs) (hset (r_heap rs) (o_with_super champ n))).
+  { intros n. apply (hframe_hset_get pe _ champ); [|reflexivity]. cbn. now rewrite (hget_key _ _ _ Hkc). }
+  pose proof (hframe_refl pe (r_heap rs)) as Frefl.
   repeat match goal with
          | |- Post (bindM _ _) _ => apply post_bind; intros
          | |- Post (ret _) _ =>
            apply post_ret; split; [|reflexivity];
            apply finish_ok; [exact R|solve [apply Fch|apply Frefl]|
+                             cbn; repeat match goal with |- context [if ?c then _ else _] => destruct c end; reflexivity|
                              cbn; repeat match goal with |- context [if ?c then _ else _] => destruct c end; reflexivity]
          | |- Post (match ?x with _ => _ end) _ => destruct x
          end.
@@ -87,22 +91,26 @@ Qed.
 
 (* what a run of the breeding loop does to (heap, next key, babies) *)
 Record bred (h : list organism) (key : Z) (h' : list organism) (key' : Z) : Prop := {
-  br_ext : hext o_species h h';
+  br_ext : hext pe h h';
   br_key : key <= key';
   br_bound : hbound h' key';
-  br_dom : forall k, key <= k < key' -> exists a, sp_of h' k = Some a }.
+  br_dom : forall k, key <= k < key' -> exists a, sp_of h' k = Some a;
+  br_fresh : forall k, key <= k < key' -> hview o_elim h' k = Some false }.
 
 Lemma bred_refl h key : hbound h key -> bred h key h key.
-Proof. intros B. constructor; auto using hext_refl; [lia|intros; lia]. Qed.
+Proof. intros B. constructor; auto using hext_refl; [lia|intros; lia|intros; lia]. Qed.
 
 Lemma bred_trans h1 k1 h2 k2 h3 k3 : bred h1 k1 h2 k2 -> bred h2 k2 h3 k3 -> bred h1 k1 h3 k3.
 Proof.
-  intros [A1 A2 A3 A4] [B1 B2 B3 B4]. constructor; auto.
+  intros [A1 A2 A3 A4 A5] [B1 B2 B3 B4 B5]. constructor; auto.
   - eapply hext_trans; eauto.
   - lia.
   - intros k Hk. destruct (Z.lt_ge_cases k k2).
-    + destruct (A4 k) as [a Ha]; [lia|]. exists a. now apply B1.
+    + destruct (A4 k) as [a Ha]; [lia|]. exists a. now apply (hext_pe_species _ _ B1).
     + apply B4. lia.
+  - intros k Hk. destruct (Z.lt_ge_cases k k2).
+    + apply (hext_pe_elim _ _ B1). apply A5. lia.
+    + apply B5. lia.
 Qed.
 
 Lemma reproduce_species_ok o gen all sorted s h key :
@@ -114,8 +122,8 @@ Proof.
   destruct (sp_orgs s) as [|k0 r0]; [apply post_fail_panic|].
   set (rs0 := {| r_heap := h; r_key := key; r_babies := []; r_clone_done := false |}).
   assert (R0 : rs_ok h key rs0).
-  { constructor; cbn; auto using hext_refl; [lia|now rewrite zrange_nil|intros; lia]. }
-  eapply post_bind_strong; [apply reproduce_loop_ok; exact R0|]. intros rs [[R1 R2 R3 R4 R5] E].
+  { constructor; cbn; auto using hext_refl; [lia|now rewrite zrange_nil|intros; lia|intros; lia]. }
+  eapply post_bind_strong; [apply reproduce_loop_ok; exact R0|]. intros rs [[R1 R2 R3 R4 R5 R6] E].
   apply post_ret. cbn in E. split; [constructor; auto|split; [assumption|lia]].
 Qed.
 
@@ -167,6 +175,7 @@ Record speciated (p p1 : population) (ks : list Z) : Prop := {
   sc_last : p_last_species p <= p_last_species p1;
   sc_ids : forall s, In s (all_sp p1) -> sp_id s <= p_last_species p1;
   sc_gid : hframe ogid (p_heap p) (p_heap p1);
+  sc_elim : hframe o_elim (p_heap p) (p_heap p1);
   sc_listed : forall k, In k ks -> exists y, In y (p_species p1) /\ In k (sp_orgs y);
   sc_kept : forall k, (exists y, In y (p_species p) /\ In k (sp_orgs y)) ->
                       exists y, In y (p_species p1) /\ In k (sp_orgs y);
@@ -191,19 +200,20 @@ Proof.
   (* the two outcomes *)
   assert (Hset : forall id, let h1 := hset (p_heap p) (o_with_species baby id) in
              (forall k', k' <> k -> sp_of h1 k' = sp_of (p_heap p) k') /\ sp_of h1 k = Some id /\
-             hframe ogid (p_heap p) h1).
+             hframe ogid (p_heap p) h1 /\ hframe o_elim (p_heap p) h1).
   { intros id h1. subst h1. splits.
     - intros k' N. unfold sp_of. rewrite hview_hset. cbn. rewrite Ekb.
       destruct (Z.eqb_spec k' k); [contradiction|reflexivity].
     - unfold sp_of. rewrite hview_hset. cbn. rewrite Ekb, Z.eqb_refl. reflexivity.
-    - apply (hframe_hset_get ogid _ baby); [|reflexivity]. cbn. now rewrite Ekb. }
+    - apply (hframe_hset_get ogid _ baby); [|reflexivity]. cbn. now rewrite Ekb.
+    - apply (hframe_hset_get o_elim _ baby); [|reflexivity]. cbn. now rewrite Ekb. }
   assert (New : forall pn, pn = {| p_species := p_species p ++ [new_species (p_last_species p + 1) k];
                 p_detached := p_detached p; p_orgs := p_orgs p;
                 p_heap := hset (p_heap p) (o_with_species baby (p_last_species p + 1));
                 p_last_species := p_last_species p + 1; p_highest := p_highest p;
                 p_epochs_highest := p_epochs_highest p; p_next_key := p_next_key p |} ->
              Wf (all_sp pn) (p_heap pn) (fun x => P x \/ x = k) /\ speciated p pn [k]).
-  { intros pn ->. destruct (Hset (p_last_species p + 1)) as (S1 & S2 & S3). split.
+  { intros pn ->. destruct (Hset (p_last_species p + 1)) as (S1 & S2 & S3 & S4). split.
     - unfold all_sp. cbn.
       eapply Wf_rel; [eapply (Wf_add_species _ _ _ _ k (p_last_species p + 1)); [exact W|exact Nk| |exact S1|exact S2]|].
       + intros s Hs E. apply Hl in Hs. lia.
@@ -225,7 +235,7 @@ Proof.
     destruct bst as [id|]; [|injection H as <-; apply New; reflexivity].
     apply Ok_inj in H. subst p1. rewrite <- Esp in *.
     apply best_species_in in Hbst. destruct Hbst as [Hbst|(s & Hs & Es)]; [discriminate|].
-    destruct (Hset id) as (S1 & S2 & S3).
+    destruct (Hset id) as (S1 & S2 & S3 & S4).
     assert (Eall : sp_set (p_species p) id (add_key k) ++ p_detached p = sp_set (all_sp p) id (add_key k)).
     { unfold all_sp. rewrite sp_set_app. f_equal. symmetry. apply sp_set_notin.
       intros d Hd Ed. pose proof (wf_ids _ _ _ W) as Hn. unfold all_sp in Hn. rewrite map_app in Hn.
@@ -240,6 +250,7 @@ Proof.
       * unfold all_sp. cbn. fold (add_key k). rewrite Eall. intros y Hy. apply sp_set_in in Hy.
         destruct Hy as (y0 & Hy0 & ->). apply Hl in Hy0. now destruct (Z.eqb (sp_id y0) id).
       * exact S3.
+      * exact S4.
       * intros k' [<-|[]]. exists (add_key k s). split.
         -- apply sp_set_in. exists s. split; [assumption|]. now rewrite Es, Z.eqb_refl.
         -- cbn. apply in_or_app. right. now left.
@@ -256,10 +267,11 @@ Qed.
 
 Lemma speciated_trans p p1 p2 ks1 ks2 : speciated p p1 ks1 -> speciated p1 p2 ks2 -> speciated p p2 (ks1 ++ ks2).
 Proof.
-  intros [A1 A2 A3 A4 A5 (n1 & A6 & A6') A7 A8 A9 A10] [B1 B2 B3 B4 B5 (n2 & B6 & B6') B7 B8 B9 B10].
+  intros [A1 A2 A3 A3' A4 A5 (n1 & A6 & A6') A7 A8 A9 A10] [B1 B2 B3 B3' B4 B5 (n2 & B6 & B6') B7 B8 B9 B10].
   constructor.
   - lia.
   - exact B2.
+  - eapply hframe_trans; eauto.
   - eapply hframe_trans; eauto.
   - intros k Hk. apply in_app_or in Hk. destruct Hk as [Hk|Hk]; auto.
   - auto.
@@ -278,6 +290,7 @@ Lemma speciated_refl p : (forall s, In s (all_sp p) -> sp_id s <= p_last_species
 Proof.
   intros Hl. constructor; auto.
   - lia.
+  - apply hframe_refl.
   - apply hframe_refl.
   - intros k [].
   - exists []. cbn. rewrite app_nil_r. split; [reflexivity|constructor].
